@@ -165,6 +165,7 @@ func (e *Exec) exploreRegion(start []*State, stop func(*State) bool, escape func
 					if len(cur.Frames) > 0 {
 						where = " @ " + top(cur).Fn.String()
 					}
+					cur.Dead = true
 					if e.finishFn != nil {
 						e.finishFn(outcome{"dropped", cur, why + where})
 					}
@@ -187,7 +188,8 @@ func (e *Exec) exploreRegion(start []*State, stop func(*State) bool, escape func
 				forks, done := e.step(cur)
 				if forks != nil {
 					if len(forks) == 0 {
-						if e.finishFn != nil {
+						if e.finishFn != nil && !cur.Dead {
+							cur.Dead = true
 							e.finishFn(outcome{"infeasible", cur, ""})
 						}
 						return
@@ -216,7 +218,7 @@ func (e *Exec) callRegion(s *State, fn Val, args []Val, x *ssa.Call) []*State {
 		func(t *State) bool { return len(t.Frames) == depth && !top(t).Panicking },
 		func(t *State) bool { return len(t.Frames) < depth || (len(t.Frames) == depth && top(t).Panicking) })
 	merged := e.mergeStates(basePC, nPC, nAs, reached)
-	return append(merged, escaped...)
+	return append(append([]*State{}, merged...), escaped...) // never nil: an empty list ends the path
 }
 
 // ifRegion: both arms of a symbolic `if` are explored up to the immediate post-dominator and merged there.
@@ -232,7 +234,7 @@ func (e *Exec) ifRegion(arms []*State, fn *ssa.Function, J *ssa.BasicBlock, dept
 		},
 		func(t *State) bool { return len(t.Frames) < depth || (len(t.Frames) == depth && top(t).Panicking) })
 	merged := e.mergeStates(basePC, len(basePC), nAs, reached)
-	return append(merged, escaped...)
+	return append(append([]*State{}, merged...), escaped...)
 }
 
 func (e *Exec) mergeStates(basePC []string, nPC, nAs int, sts []*State) []*State {
